@@ -61,7 +61,11 @@ def evaluate(ctx, P, env, cases, with_model=True):
             rec["model_out"] = m_outs[i]
         if i in crash_log:
             rec["sanitizer"] = crash_log[i][-3000:]
-        if why is not None:
+        if why is not None and why.startswith("TIE:"):
+            # a judge may report that a TIE broke (spec vs corpus oracle, generator vs spec): not an implementation failure
+            rec["why"] = why[4:].strip()
+            corr.append(rec)
+        elif why is not None:
             rec["why"] = why
             rec["sig"] = P.signature(c, co, why) if hasattr(P, "signature") else "generic"
             concrete.append(rec)
@@ -217,6 +221,18 @@ def run(ctx, P, a):
         evals = st["evaluations"]
         ctx.say("[tie] %d cases (%d corpus) in %.1fs: %d concrete failures, %d model/impl disagreements"
                 % (evals, n_corpus, time.time() - t1, len(concrete), len(corr)))
+
+    # generator quality: gcov line coverage of the anchored functions under (a sample of) this run's cases
+    if "vh" in env and all_cases and not hasattr(P, "evaluate") and not os.environ.get("VERIF_NO_COVERAGE"):
+        try:
+            cov = core.anchor_coverage(ctx, P.ID, getattr(P, "VH_FEATURES", []), [c.op for c in all_cases],
+                                       max_ops=400 if ctx.tier == "quick" else 4000)
+            if cov:
+                ctx.extra["anchor_line_coverage"] = cov
+                ctx.say("[coverage] anchored functions: %s/%s lines executed by %s sampled cases; never executed: %s" % (
+                    cov.get("lines_executed"), cov.get("lines_total"), cov.get("ops_sampled"), cov.get("never_executed")))
+        except Exception as e:            # coverage is a report, never a verdict
+            ctx.extra["anchor_line_coverage"] = {"error": repr(e)[:200]}
 
     new_conc, listed = split_known(P, concrete, known)
 
